@@ -290,6 +290,8 @@ class Ctx:
             ok = bool(cond)
             self.goals.append((cid, 'num', ok, note))
             return
+        if isinstance(cond, np.bool_):
+            cond = bool(cond)
         if using:
             self.goals.append((cid, 'cond', (cond, tuple(using)), note))
         else:
